@@ -42,7 +42,7 @@ TIERS = {
     "quick": {"worlds": 1000, "wall": 520, "shrink_budget": 60,
               "required_probes": ["c08.run_completed", "c08.repeat_compared", "pool.worker_ran_2plus_tasks",
                                   "c08.predraw_batch", "c08.multilevel_run", "c08.default_convergence_rates"]},
-    "thorough": {"worlds": 16000, "wall": 3300, "shrink_budget": 150,
+    "thorough": {"worlds": 16000, "wall": 2900, "shrink_budget": 150,
                  "required_probes": ["c08.run_completed", "c08.repeat_compared", "pool.worker_ran_2plus_tasks",
                                      "c08.predraw_batch", "c08.multilevel_run",
                                      "pool.idle_worker", "pool.task_of_one_item"]},
